@@ -5,7 +5,10 @@ Two layers.
     `clients.WsClient`), cut into reads; wsproto (the installed library) parses them; every step is compared with the Lean
     model `HC.Stream.Ws` fed the events the library yielded, and the whole session with the Lean *specification*
     (`c10.spec`: `handleEvents` on `sessionEvs` of the logical messages — what `receive_fidelity` / `limit_*` speak about).
-(b) end to end: `TCPServer` on both workers, HTTP/1.1 upgrade and HTTP/2 extended CONNECT, every read segmentation class.
+(b) end to end: `TCPServer` on both workers, HTTP/1.1 upgrade and HTTP/2 extended CONNECT, every read segmentation class;
+    including the "writers" family: large application messages sent whilst the peer does not take what the server writes and
+    keeps sending (pings, messages), so that the reader task's replies and the ping task write to the stream during an
+    application send (frame integrity under concurrent writers: `HC/Stream/WsWire.lean`, `frame_hand_over_assumed`).
 Monitors are written from the property text and look only at what the application received and what the client saw."""
 from __future__ import annotations
 
